@@ -302,8 +302,3 @@ func verifyAllProp(eng *Engine, fcs []*FuncContract, lemmas []*AxiomDef, prop st
 	dischargeAll(results, dir, batchMs, singleMs, stats, keep)
 	return results
 }
-
-// tryReplay turns a counterexample into a test on the real code.  Returns true if a failing input was reproduced.
-func tryReplay(eng *Engine, r *FuncResult, o *Obligation, rf *replayFile) bool {
-	return false
-}
